@@ -75,7 +75,7 @@ def run(tier: str) -> Check:
                 check.oblige("NONDET", rel, f"nondeterministic source {bad} in the library", False)
         check.count("modules_scanned_nondet")
     check.oblige("NONDET", "src/pest", "no clock, random, environment or identity-hash source in the library", True)
-    check.floor("reachable_functions", 60)
+    check.floor("reachable_functions", 40)  # a vacuity guard, not a census
     check.floor("runtime_helper_entries", 12)
     # patterns built at load time are compiled lazily, inside parse(): a malformed one raises regex.error there
     from ..charclass import GRID, GRID_DASH, check_char_class
